@@ -829,6 +829,86 @@ def lower_lazy_next(prog, d, max_sites=40):
     return changed
 
 
+def expand_array_from_fn(prog, d):
+    """`std::array::from_fn::<T, N, F>(f)` is `let mut a = [_; N]; for i in 0..N { a[i] = f(i) }; a` (the initial
+    contents are never read): spelled out with a direct call of f"""
+    blocks, locs = d["blocks"], d["locals"]
+    changed = False
+    for bi in range(len(blocks)):
+        b = blocks[bi]
+        if b["cleanup"] or b.get("consumer_expanded"):
+            continue
+        t = b["term"]
+        if t["k"] != "call" or t["target"] < 0 or len(t["args"]) != 1 or t["dest"]["proj"]:
+            continue
+        c = _callee(t)
+        if not c.endswith("array::from_fn"):
+            continue
+        ga = t["callee"].get("args") or []
+        if len(ga) < 2 or not re.match(r"^\d+", str(ga[1])):
+            continue
+        n = int(re.match(r"^(\d+)", str(ga[1])).group(1))
+        fop = t["args"][0]
+        fdef = _closure_def(blocks, fop)
+        if fdef is None or fdef[1] not in prog.fns:
+            continue
+        line = t.get("span", {}).get("l0", 0)
+        span = t.get("span", {"file": "", "l0": line, "l1": line, "exp": False})
+        dest, target = t["dest"], t["target"]
+
+        def new_local(ty, name=""):
+            locs.append({"ty": ty, "name": name})
+            return len(locs) - 1
+
+        def new_block(term=None):
+            blocks.append({"cleanup": False, "stmts": [], "term": term or {"k": "goto", "target": target}, "expanded": "consumer:from_fn"})
+            return len(blocks) - 1
+
+        def mv(x):
+            return {"k": "move", "place": {"local": x, "proj": []}}
+
+        def cp(x):
+            return {"k": "copy", "place": {"local": x, "proj": []}}
+
+        def const(v, ty="usize"):
+            return {"k": "const", "ty": ty, "bits": str(v), "size": 8, "dbg": "%d_%s" % (v, ty)}
+        ety = str(ga[0])
+        zero = {"k": "const", "ty": ety, "bits": "0", "size": 8, "dbg": "0_%s" % ety} if re.match(r"^[iu](8|16|32|64|128|size)$", ety) else {"k": "const", "ty": ety, "dbg": "<uninit>"}
+        b["stmts"].append({"place": dest, "rv": {"k": "repeat", "a": zero, "n": "%d_usize" % n}, "line": line})
+        rng = new_local("std::ops::Range<usize>", "iter")
+        b["stmts"].append({"place": {"local": rng, "proj": []}, "rv": {"k": "aggregate", "kind": {"agg": "adt", "adt": "std::ops::Range", "variant": "Range", "vidx": 0, "fields": ["start", "end"]}, "ops": [const(0), const(n)]}, "line": line})
+        head, mid, body, after = new_block(), new_block(), new_block(), new_block()
+        b["term"] = {"k": "goto", "target": head}
+        b["consumer_expanded"] = True
+        r = new_local("&mut std::ops::Range<usize>")
+        x = new_local("std::option::Option<usize>")
+        blocks[head]["stmts"].append({"place": {"local": r, "proj": []}, "rv": {"k": "ref", "place": {"local": rng, "proj": []}, "mut": True}, "line": line})
+        nxt = "std::iter::range::<impl std::iter::Iterator for std::ops::Range<A>>::next"
+        blocks[head]["term"] = {"k": "call", "callee": {"path": nxt, "resolved": nxt, "is_resolved": True, "local": False, "crate": "core", "args": ["usize"]},
+                                "args": [mv(r)], "dest": {"local": x, "proj": []}, "target": mid, "span": span}
+        dl = new_local("isize")
+        blocks[mid]["stmts"].append({"place": {"local": dl, "proj": []}, "rv": {"k": "discr", "place": {"local": x, "proj": []}}, "line": line})
+        dead = new_block({"k": "unreachable"})
+        exit_b = new_block()
+        blocks[mid]["term"] = {"k": "switch", "discr": mv(dl), "targets": [["0", exit_b], ["1", body]], "otherwise": dead, "span": span}
+        i = new_local("usize", "i")
+        blocks[body]["stmts"].append({"place": {"local": i, "proj": []}, "rv": {"k": "use", "op": {"k": "copy", "place": {"local": x, "proj": [
+            {"k": "downcast", "variant": "Some", "vidx": 1}, {"k": "field", "idx": 0, "name": "0", "adt": OPTION, "ty": "usize"}]}}}, "line": line})
+        v = new_local(ety, "entry")
+        if fdef[0] == "closure":
+            tup = new_local("(usize,)")
+            blocks[body]["stmts"].append({"place": {"local": tup, "proj": []}, "rv": {"k": "aggregate", "kind": {"agg": "tuple"}, "ops": [cp(i)]}, "line": line})
+            cargs = [fop, mv(tup)]
+        else:
+            cargs = [cp(i)]
+        blocks[body]["term"] = {"k": "call", "callee": {"path": fdef[1], "resolved": fdef[1], "is_resolved": True, "local": True, "crate": "", "args": []},
+                                "args": cargs, "dest": {"local": v, "proj": []}, "target": after, "span": span}
+        blocks[after]["stmts"].append({"place": {"local": dest["local"], "proj": [{"k": "index", "local": i}]}, "rv": {"k": "use", "op": mv(v)}, "line": line})
+        blocks[after]["term"] = {"k": "goto", "target": head}
+        changed = True
+    return changed
+
+
 def expand_extend(prog, d):
     """`v.extend(chain)` where chain is a lazy adapter with a closure (map / filter / filter_map / from_fn) is the loop
     `for x in chain { v.push(x) }` (push_back for a VecDeque); next() of the chain is then lowered by lower_lazy_next"""
@@ -959,7 +1039,7 @@ def expand_consumers(prog, d):
 
         def mv(n):
             return {"k": "move", "place": {"local": n, "proj": []}}
-        it = new_local("?", "iter")
+        it = new_local(locs[it_op["place"]["local"]]["ty"] if not it_op["place"]["proj"] and it_op["place"]["local"] < len(locs) else "?", "iter")
         b["stmts"].append({"place": {"local": it, "proj": []}, "rv": {"k": "use", "op": it_op}, "line": line})
         acc = None
         if has_acc:
@@ -987,6 +1067,8 @@ def expand_consumers(prog, d):
         for q, g2 in prog.fns.items():
             if g2.trait and q.endswith("::next") and head_ty and g2.self_ty.split("<")[0] == head_ty:
                 nxt, nxt_local = q, True
+        if not nxt_local and ity and ity != "?":
+            nxt = "<%s as std::iter::Iterator>::next" % ity
         blocks[head]["term"] = {"k": "call", "callee": {"path": nxt, "resolved": nxt, "is_resolved": True, "local": nxt_local, "crate": "" if nxt_local else "core", "args": [ity] if ity else []},
                                 "args": [ref_op], "dest": {"local": x, "proj": []}, "target": mid, "span": span}
         dl = new_local("isize")
@@ -1294,6 +1376,16 @@ class Inliner:
                     d2["blocks"] = copy.deepcopy(f.blocks)
                     d2["locals"] = list(f.locals)
                     if expand_consumers(self.prog, d2):
+                        f = Fn(d2, f.crate)
+                        f.program = self.prog
+                        self.prog.fns[p] = f
+                        self.expanded += 1
+                        changed = True
+                if self.expand and LOWER_NEXT and any(b["term"]["k"] == "call" and not b["cleanup"] and _callee(b["term"]).endswith("array::from_fn") and not b.get("consumer_expanded") for b in f.blocks):
+                    d2 = dict(f.d)
+                    d2["blocks"] = copy.deepcopy(f.blocks)
+                    d2["locals"] = list(f.locals)
+                    if expand_array_from_fn(self.prog, d2):
                         f = Fn(d2, f.crate)
                         f.program = self.prog
                         self.prog.fns[p] = f
